@@ -1,7 +1,7 @@
 #!/bin/bash
 # seed_batch.sh <ID>:<variant> ...   confirm each seeded change, then run all quick checks against it
 for x in "$@"; do
-  id=${x%%:*}; v=${x##*:}; d=/tmp/seed/$id
+  id=${x%%:*}; v=${x##*:}; d=/root/work/seed/$id
   echo "=== $id/$v $(date +%T)"
   python3 /verif/lib/seed_eval.py $d $v > $d/$v.eval.json 2>&1
   python3 -c "import json;r=json.load(open('$d/$v.eval.json'));print('confirmed' if r.get('confirmed') else 'NOT CONFIRMED', r.get('suite_with_change'), r['demo_without_change']['holds'], r.get('demo_with_change',{}).get('holds'))"
